@@ -121,7 +121,7 @@ def gen_transition(rng):
             if rng.random() < 0.4:
                 steps.append("t0")
             else:
-                steps.append("c0:%d:%d" % (rng.randrange(2), rng.choice([0, 3, 40])))
+                steps.append("c0:%d:%d" % (rng.randrange(5), rng.choice([0, 3, 40])))
             emitted[seq] = phase
 
     for _ in range(rng.randrange(2, 7)):
